@@ -4,6 +4,7 @@ import (
 	"errors"
 	"io"
 	"os"
+	"path/filepath"
 )
 
 // ---- file-system model (harness level): *os.File values are identities, contents live in vFiles ----
@@ -131,6 +132,10 @@ func stubOsRemove(name string) error {
 
 // vLiveTempFiles counts spill files that still exist.
 func vLiveTempFiles() int {
+	if !vSymbolic() {
+		// native replay: real spill files in the temp directory (relative to the baseline taken at start)
+		return vNativeTempFiles() - vNativeTempBaseline
+	}
 	n := 0
 	for _, vf := range vFileList {
 		if !vf.removed {
@@ -138,4 +143,14 @@ func vLiveTempFiles() int {
 		}
 	}
 	return n
+}
+
+var vNativeTempBaseline = vNativeTempFiles()
+
+func vNativeTempFiles() int {
+	if vSymbolic() {
+		return 0
+	}
+	m, _ := filepath.Glob(filepath.Join(os.TempDir(), "proxy-buffer-*"))
+	return len(m)
 }
